@@ -446,6 +446,11 @@ def check_induced(case, ctx):
     ns = sorted(m.nodes)
     chosen = permuted([n for i, n in enumerate(ns) if case["mask"][i % len(case["mask"])]],
                       case["perm"])
+    # a list that names a node twice still selects the same node subset
+    for r in case.get("repeat", []):
+        if chosen:
+            chosen.insert(r % (len(chosen) + 1), chosen[r % len(chosen)])
+            ctx.label("nodes:listed-twice")
     cs = set(chosen)
     keys = {k for k in m.edges if nodes_of(k, False) <= cs}
     proper = _sel_labels(ctx, m, keys)
@@ -738,6 +743,9 @@ def induced_cases(tier):
         "src": sources(False, _big(tier)),
         "mask": st.lists(st.sampled_from([True, True, True, False]), min_size=8, max_size=8),
         "perm": sel_int,
+        # in one case out of three the selection list repeats one or two of its nodes
+        "repeat": st.integers(0, 2).flatmap(
+            lambda i: st.just([]) if i else st.lists(st.integers(0, 40), min_size=1, max_size=2)),
     })
 
 
